@@ -1,6 +1,7 @@
 package ss2022
 
 import (
+	"crypto/cipher"
 	"net/netip"
 
 	"go.uber.org/zap"
@@ -9,6 +10,32 @@ import (
 // C06 / C04 — SS2022 entry points on hostile bytes.  The attacker may even hold the key
 // (vfAttackerHasKey: an AEAD open may succeed with an arbitrary plaintext), so everything that is
 // computed from decrypted headers is covered too.
+
+type cipherAEAD = cipher.AEAD
+
+// vfC06packet builds a hostile datagram of n bytes.  The 16-byte separate header is the block
+// encryption of an ARBITRARY plaintext (AES is a permutation, so this loses no generality and
+// the native replay can produce the same bytes); with key==true the body is an arbitrary
+// plaintext genuinely sealed under the session key (a peer that holds the key), otherwise the
+// body is arbitrary bytes.
+func vfC06packet(n int, key bool, block cipher.Block, aead func(sid []byte) cipher.AEAD) []byte {
+	pkt := make([]byte, n)
+	if n < 16 {
+		copy(pkt, vfBytes("short", n))
+		return pkt
+	}
+	hdr := vfBytes("sepHeader", 16)
+	block.Encrypt(pkt[:16], hdr)
+	if !key || n < 32 {
+		copy(pkt[16:], vfBytes("body", n-16))
+		return pkt
+	}
+	body := vfBytes("plain", n-32)
+	a := aead(hdr[:8])
+	ct := a.Seal(nil, hdr[4:16], body, nil)
+	copy(pkt[16:], ct)
+	return pkt
+}
 
 // vfC06_UDPServerPacket: an arbitrary datagram into SessionInfo / NewUnpacker / UnpackInPlace
 // (server side), with the packet placed in the buffer the way the relay does.  No panic; a
@@ -23,10 +50,11 @@ func vfC06_UDPServerPacket() {
 	n := vfInt("len")
 	vfAssume(n >= 0 && n <= 400)
 	b := make([]byte, front+n+16)
-	copy(b[front:], vfBytes("pkt", n))
-	if vfCase("key") == 1 {
-		vfAttackerHasKey()
-	}
+	copy(b[front:], vfC06packet(n, vfCase("key") == 1, ucfg.Block(), func(sid []byte) cipherAEAD {
+		a, err := ucfg.AEAD(sid)
+		vfAssert(err == nil, "aead")
+		return a
+	}))
 	pkt := b[front : front+n]
 	csid, err := server.SessionInfo(pkt)
 	if err != nil {
@@ -75,10 +103,11 @@ func vfC06_UDPClientPacket() {
 	n := vfInt("len")
 	vfAssume(n >= 0 && n <= 400)
 	b := make([]byte, front+n+16)
-	copy(b[front:], vfBytes("pkt", n))
-	if vfCase("key") == 1 {
-		vfAttackerHasKey()
-	}
+	copy(b[front:], vfC06packet(n, vfCase("key") == 1, ccfg.Block(), func(sid []byte) cipherAEAD {
+		a, err := ccfg.AEAD(sid)
+		vfAssert(err == nil, "aead")
+		return a
+	}))
 	src := netip.AddrPortFrom(vfAddrFrom4([4]byte{192, 0, 2, 1}), 8388)
 	from, ps, pl, err := u.UnpackInPlace(b, src, front, n)
 	if err != nil {
@@ -100,10 +129,23 @@ func vfC06_TCPRequest() {
 	n := vfInt("len")
 	vfAssume(n >= 0 && n <= 400)
 	c := &vfConn{}
-	c.data = vfBytes("wire", n)
-	c.frags = 1
 	if vfCase("key") == 1 {
-		vfAttackerHasKey()
+		// a peer that holds the key: arbitrary header plaintexts, genuinely sealed
+		salt := vfBytes("salt", 16)
+		sc, err := ucfg.ShadowStreamCipher(salt)
+		vfAssert(err == nil, "cipher")
+		wire := append([]byte{}, salt...)
+		wire = sc.EncryptAppend(wire, vfBytes("fixedHeader", TCPRequestFixedLengthHeaderLength))
+		vl := vfInt("varLen")
+		vfAssume(vl >= 0 && vl <= 300)
+		wire = sc.EncryptAppend(wire, vfBytes("varHeader", vl))
+		tail := vfInt("tailLen")
+		vfAssume(tail >= 0 && tail <= 20)
+		wire = append(wire, vfBytes("tail", tail)...)
+		c.data = wire
+		n = len(wire)
+	} else {
+		c.data = vfBytes("wire", n)
 	}
 	req, err := server.HandleStream(c, zap.NewNop())
 	if err != nil {
